@@ -521,6 +521,15 @@ def m_as_ref(e, args, info):
     return EnumV(OPT, o.d, {1: [Ref(r.cell, r.proj + (('v', 'Some'), ('f', 0)))]})
 
 
+@exact('std::option::Option::iter')
+def m_opt_iter(e, args, info):
+    r = args[0]
+    o = e.load(r.cell, r.proj)
+    if opt_d(e, o) == 0:
+        return ListIt([])
+    return ListIt([Ref(r.cell, r.proj + (('v', 'Some'), ('f', 0)))])
+
+
 @exact('std::option::Option::map')
 def m_opt_map(e, args, info):
     o = args[0]
